@@ -11,7 +11,7 @@ import (
 
 // Op is one harness action, taken at a quiescent point.
 type Op struct {
-	// Kind: produce | tick | script | restart | crash | signal
+	// Kind: produce | produce-burst | tick | script | restart | crash | signal
 	Kind   string             `json:"kind"`
 	Step   *pw.Step           `json:"step,omitempty"`
 	N      int                `json:"n,omitempty"`
@@ -80,6 +80,20 @@ func (w *World) Apply(o Op) (*pw.StepResult, error) {
 	case "produce":
 		r := w.Produce(*o.Step)
 		return &r, nil
+	case "produce-burst":
+		// N blocks in a row (every third one empty): a long backlog before the next submission round
+		var last pw.StepResult
+		for i := 0; i < o.N; i++ {
+			st := *o.Step
+			if i%3 == 2 {
+				st = pw.GoodStep()
+			}
+			last = w.Produce(st)
+			if last.After != last.Before+1 {
+				break
+			}
+		}
+		return &last, nil
 	case "tick":
 		n := o.N
 		if n < 1 {
